@@ -992,6 +992,10 @@ SQL_TOKEN_UNITS_EXTRA = [":=", "*", "!!", "~", "!", "<=>", "ifnull", "`a` ", "ut
                          "into outfile ", "@@v ", "$1 ", "0x1 ", "\\N ", "binary ", "is ", "and ", "group by ", "having ", "sleep"]
 
 
+# tokens that fold differently + an evil token: every arrangement up to the end of the 8-slot window
+WINDOW_UNITS = ["a ", ", ", "/*!*/", "1 ", "{ "]
+
+
 def sqli_configs(tier):
     """(name, level, units, maxlen, openers, flags) explored exhaustively by TLC on Sqli.tla."""
     S = vgen.b
@@ -1017,6 +1021,7 @@ def sqli_configs(tier):
             ("check.core", "check", core, 4, [""], [9]),
             ("check.tok", "check", SQL_TOKEN_UNITS, 3, [""], [9]),
             ("check.tokq", "check", SQL_TOKEN_UNITS[:16], 3, ["1'", "1\" "], [9]),
+            ("check.window", "check", WINDOW_UNITS[:4], 7, [""], [9]),
         ]
     return [
         ("lex.sigma3", "lex", sig_lex, 3, [""], ALLFLAGS),
@@ -1037,6 +1042,7 @@ def sqli_configs(tier):
         ("check.core", "check", core, 5, [""], [9]),
         ("check.tok", "check", SQL_TOKEN_UNITS, 4, [""], [9]),
         ("check.tokq", "check", SQL_TOKEN_UNITS[:16], 4, ["1'", "1\" "], [9]),
+        ("check.window", "check", WINDOW_UNITS, 8, [""], [9]),
     ]
 
 
@@ -1118,6 +1124,7 @@ def sqli_inputs(tier, salt):
     items += list(vgen.all_bytes_in_context(vgen.SQL_BYTE_FRAMES))
     items += list(vgen.literal_bodies(6 if big else 4))
     items += keyword_frames(big)
+    items += list(vgen.window_frames())
     items += vgen.long_sql_inputs(big)
     return list(vgen.dedup(items))
 
@@ -1339,6 +1346,32 @@ def c08(tier, sc):
     for rj in rejects:
         rep.violation("IsSQLi(%r) = %s breaks the clause %r" % (show(rj["in"]), json.dumps(rj["impl"]), rj["reject"]),
                       {"kind": "sqli.c08", "in": rj["in"], "clause": rj["reject"], "impl": rj["impl"]})
+    # "f = fingerprint(s, ctx) for some ctx" against the specification's own fingerprints (the fresh per-mode
+    # readings above come from the code under test): every reported input of moderate length
+    import vsqli
+    pos = []
+    for l in open(rec):
+        if '"sqli":true' in l:
+            e = json.loads(l)
+            if len(e["in"]) <= 120 and not e.get("panic"):
+                pos.append(e)
+    cap = 40000 if tier == "thorough" else 8000
+    if len(pos) > cap:
+        wf = set(bytes(x) for x in vgen.window_frames())
+        keep = [e for e in pos if bytes(e["in"]) in wf]
+        rest = [e for e in pos if bytes(e["in"]) not in wf]
+        pos = keep + vgen.rng("c08fps").sample(rest, max(0, cap - len(keep)))
+    out, res = vsqli.eval_spec(sc, d, [{"in": e["in"], "what": "fps", "flags": 0} for e in pos], "c08fps", timeout=3000)
+    rep.add_tlc("EvalSqli/fps", res)
+    nbad = 0
+    for e, o in zip(pos, out):
+        if e["fp"] not in o["fps"]:
+            nbad += 1
+            rep.violation("IsSQLi(%r) = (true, %r): not the fingerprint of the input under any context; the specification's fingerprints are %s" % (
+                show(e["in"]), bytes(e["fp"]).decode("latin1"), [bytes(f).decode("latin1") for f in o["fps"]]),
+                {"kind": "sqli.c08", "in": e["in"], "clause": "fingerprint of the input under some context (specification)",
+                 "impl": {"sqli": True, "fp": e["fp"]}, "spec": o["fps"]})
+    rep.part("spec.fingerprints", reported_inputs_compared=len(pos), disagree=nbad)
     # canary
     first = None
     for l in open(rec):
@@ -1930,6 +1963,22 @@ def c09(tier, sc):
             for b2 in sig:
                 if a != b2:
                     fams.append({"api": "xss", "pre": o, "rep": [a, b2], "tail": []})
+    # every cycle of the specification's tokenizer state graph that an input within the bounds drives:
+    # (bytes before the cycle, bytes of the cycle) -> one family each
+    cyc = xss_props(sc, d, rep, "cycle", "cycle", S("<>/='\"`!-?%[] a\x00"), 4 if big else 3,
+                    prefixes=[S(""), S("<"), S("<a"), S("<a "), S("<a b"), S("<a b="), S("<a b='"), S("</"), S("<!"), S("<!--"),
+                              S("<![CDATA["), S("<%"), S("<?")])
+    ncyc = 0
+    for g in cyc:
+        for p0, q0 in g["cyc"]:
+            fams.append({"api": "xss", "pre": g["in"][:p0], "rep": g["in"][p0:q0], "tail": []})
+            ncyc += 1
+    scyc = sqli_props(sc, d, rep, "cycle", "cycle", byte_units("'\"`\\/*-#$@()[]{},;.1ae qxnu&:=!<|\n\xa0"), 3 if big else 2, openers=sq_open)
+    for g in scyc:
+        for p0, q0 in g["cyc"]:
+            fams.append({"api": "sqli", "pre": g["in"][:p0], "rep": g["in"][p0:q0], "tail": []})
+            ncyc += 1
+    rep.part("cycles", xss_inputs_with_cycles=len(cyc), sqli_inputs_with_cycles=len(scyc), cycles=ncyc)
     r0 = vgen.rng("c09")
     pairs = [(a, b2) for a in sq_units for b2 in sq_units if a != b2]
     for a, b2 in (pairs if big else r0.sample(pairs, 500)):
